@@ -12,7 +12,7 @@ use crate::{
     osu::Profile,
     rng::{hash_str, Rng},
     runner::{guard, Ctx},
-    sets::{self, SetDomain, AP, RX, TD},
+    sets::{self, AP, RX, TD},
 };
 
 /// The documented aggregation: drop zeros, sort descending, sum of peak * weight^i.
@@ -58,13 +58,13 @@ pub fn case(ctx: &mut Ctx, idx: u64) {
             ..Mix::default()
         }
     };
-    let Some((mc, map)) = gen::gen_domain_map(&mut rng, &mx, Domain::Adversarial) else {
+    let Some((mc, map)) = gen::gen_domain_map_ext(&mut rng, &mx, Domain::Adversarial, 3, 15) else {
         ctx.count("skipped_no_domain_map");
         return;
     };
     let mode = gen::pick_mode(&mut rng, &map);
     let mname = mode_name(mode);
-    let mut spec = sets::gen_setspec(&mut rng, mode, SetDomain::Game);
+    let mut spec = sets::gen_setspec_wide_clock(&mut rng, mode, &map);
     if rng.chance(0.4) {
         let n = map.hit_objects.len() as u64;
         spec.passed = Some(rng.below(n * 2 + 2) as u32);
